@@ -4,13 +4,15 @@ bounded_gather2_return_exceptions, WithoutSemaphore).
 
 Tie: X (schedules).  coq/theories/Gather/Model.v is a hand-written step model of the helpers AFTER fixes/C20.diff (one constructor per
 harness action: body i returns / body i raises / the caller is cancelled); Lemmas.v proves the property for ALL numbers of permits, all
-numbers of partial functions and ALL action lists by invariant induction.  The correspondence runs the REAL functions on the deterministic
+numbers of partial functions and ALL action lists by invariant induction.  coq/theories/Gather/OnlineModel.v is a FAITHFUL model of
+OnlineBoundedGather2 as it is (n tasks submitted, then the with-body ends or raises; actions: body returns / raises, a task is cancelled,
+the caller is cancelled): bound and error contract are proved, "the exit waits for all tasks" is proved partially and refuted for the
+two remaining cases (open findings).  The correspondence runs the REAL functions on the deterministic
 asyncio loop (harness/aio/detloop.py) and the model (vm_compute) on the same schedules - an exhaustive small scope plus seeded random
 schedules - and compares after every action: the state of every body, the number of unfinished tasks, the semaphore value and its
 waiters, the caller's result/exception, and the number of bodies running at the instant the helper returned.
 
 The code in /repo at the time of writing violates the property (see findings/C20.json): the oracle finds the failing schedules.
-OnlineBoundedGather2 is exercised by the oracle only (no Coq model): see META.
 """
 import glob
 import json
@@ -27,36 +29,40 @@ MODES = {'ret': 'MRet', 'raise': 'MRaise', 'cancel': 'MCancel'}
 
 META = dict(
     design_ref='§5.C C20, §6',
-    technique='Coq proof (invariant induction over all schedules, all numbers of permits and of partial functions) about a hand-written step model; '
-              'model tied to the real functions by a differential run on a deterministic asyncio loop (exhaustive small scope + seeded random '
-              'schedules); OnlineBoundedGather2 covered by an implementation-side oracle only',
-    level_text='Machine-checked theorems (Coq 8.16, closed under the global context) about bounded_gather / bounded_gather2 / '
-               'bounded_gather2_raise_exceptions / bounded_gather2_return_exceptions / WithoutSemaphore AFTER fixes/C20.diff, for every number of '
-               'permits >= 1, every number of partial functions and EVERY list of harness actions (body i returns v / body i raises e / the caller is '
-               'cancelled): free permits + running bodies = permits at all times (so never more than the bound run, and at most bound-1 while the '
-               'caller holds its own permit again at the instant of return), no permit idles while a task waits; a returned list holds every task\'s '
-               'scripted result in submission order (exceptions in place with return_exceptions); in the raising modes the exception raised is the one '
-               'of the first body that raised and a list is returned only if none raised; CancelledError is raised only if the caller was cancelled; '
-               'with cancel_on_error or return_exceptions (and whenever no body raised) no task is running or waiting at the instant the helper '
-               'returns or afterwards; in default mode siblings of a failed body are never cancelled (as documented); the outcome never changes '
-               'after return.',
-    level_note='PARTIAL. (1) OnlineBoundedGather2 has no Coq model: it is exercised only by the oracle on the real class (bound, exit waits for '
-               'all tasks, first exception raised); its exit leaves tasks unfinished when the with-body raises or the caller is cancelled - open '
-               'findings. (2) The theorems are about the code after fixes/C20.diff; the code in /repo before the fix violates bound, cancels-rest and '
-               'none-left-running (oracle replays). (3) Modelled, not verified: granularity "one harness action, then the loop runs until idle" plus '
-               'one snapshot at the instant of return; partial functions that end as soon as they are cancelled; only the helper\'s own tasks use '
-               'the semaphore; CPython asyncio.Semaphore FIFO / gather / Task.cancel semantics as encoded in the step function. The tie between model '
-               'and functions is a differential test, not a proof. Trusted: DetLoop (private CPython 3.12 loop attributes).',
+    technique='Coq proof (invariant induction over all schedules, all numbers of permits and of partial functions) about two hand-written step '
+              'models (gather helpers after the fix; OnlineBoundedGather2 as it is); models tied to the real code by a differential run on a '
+              'deterministic asyncio loop (exhaustive small scope + seeded random schedules)',
+    level_text='Machine-checked theorems (Coq 8.16, closed under the global context), for every number of permits >= 1, every number of partial '
+               'functions and EVERY list of harness actions. (A) bounded_gather / bounded_gather2 / bounded_gather2_raise_exceptions / '
+               'bounded_gather2_return_exceptions / WithoutSemaphore AFTER fixes/C20.diff (actions: body i returns v / raises e / the caller is '
+               'cancelled): free permits + running bodies = permits at all times (never more than the bound run; at most bound-1 at the instant of '
+               'return, when the caller holds its own permit again), no permit idles while a task waits; a returned list holds every task\'s '
+               'scripted result in submission order (exceptions in place with return_exceptions); in the raising modes the exception raised is that '
+               'of the first body that raised and a list is returned only if none raised; CancelledError only if the caller was cancelled; with '
+               'cancel_on_error or return_exceptions (and whenever no body raised) no task is running or waiting at the instant of return or later; '
+               'default mode never cancels siblings (as documented); the outcome never changes after return. (B) OnlineBoundedGather2 AS IT IS '
+               '(actions additionally: task i is cancelled; the with-body may raise): the same bound; a failing task cancels everything and shuts '
+               'the pool; the exit raises the first exception (with-body first), returns normally only if there was none and then every task has '
+               'finished; "the exit waits for all background tasks" is proved for normal exit and exit after a task failure and REFUTED (witness '
+               'schedules, replayed on the real class) when the with-body raises and when the caller is cancelled during the exit.',
+    level_note='PARTIAL. (1) The gather-helper theorems are about the code after fixes/C20.diff; the code in /repo before the fix violates bound, '
+               'cancels-rest and none-left-running (oracle replays). (2) OnlineBoundedGather2: exit-waits holds only partially (two open findings); '
+               'only the usage "submit n tasks, leave the with-block" is modelled (no pool.wait(), no submission after a wait). (3) Modelled, not '
+               'verified: granularity "one harness action, then the loop runs until idle" plus one snapshot at the instant of return; partial functions '
+               'that end as soon as they are cancelled; only the helper\'s own tasks use the semaphore; CPython asyncio.Semaphore FIFO / gather / '
+               'shield / Task.cancel semantics as encoded in the step functions. The tie between models and code is a differential test, not a proof. '
+               'Trusted: DetLoop (private CPython 3.12 loop attributes).',
     partial=True,
 )
 TRUSTED = ['harness/aio/detloop.py (deterministic stepping of a real asyncio loop)',
-           'CPython 3.12 asyncio (Semaphore FIFO wake-up, gather, Task.cancel, wait) as the semantics of the implementation',
+           'CPython 3.12 asyncio (Semaphore FIFO wake-up, gather, shield, Task.cancel, wait) as the semantics of the implementation',
            'harness/impl/c20_gather.py instrumentation of the partial functions (entered/exited flags, snapshot at the instant of return)']
 ASSUMPTIONS = ['a step is one harness action followed by running the event loop until no callback is ready; one extra observation is taken by the '
                'caller at the instant the helper returns or raises',
-               'protocol of bounded_gather2: the caller holds one permit of the semaphore (the helper lends it out); bounded_gather creates the semaphore itself',
+               'protocol of bounded_gather2 / OnlineBoundedGather2: the caller holds one permit of the semaphore (the helper lends it out); '
+               'bounded_gather creates the semaphore itself',
                'partial functions finish only when the schedule says so and end immediately when cancelled; nobody else uses the semaphore',
-               'OnlineBoundedGather2 is not modelled (oracle only)']
+               'OnlineBoundedGather2: all tasks are submitted before the with-block ends; pool.wait() and later submissions are not exercised']
 
 
 # ------------------------------------------------------------------------------------------------ schedules
@@ -100,7 +106,7 @@ def _corpus_cases():
     for p in sorted(glob.glob(os.path.join(os.path.dirname(__file__), '..', '..', 'corpus', ID, '*.json'))):
         doc = json.load(open(p))
         c = doc['case'] if 'case' in doc else doc
-        if c.get('entry') in ('gather', 'gather2'):
+        if c.get('entry') in ('gather', 'gather2', 'online'):
             out.append(c)
     return out
 
@@ -117,9 +123,12 @@ def _cases(ctx, budget=1):
             for n in (2, 3):
                 for acts in _enumerate(n, 3):
                     cases.append({'entry': 'gather', 'mode': mode, 'N': N, 'n': n, 'acts': acts})
+    exh_online, rnd_online = _online_cases(ctx, budget)
+    cases += exh_online
     n_exh = len(cases) - n_corpus
     for _ in range(ctx.scale(400, 8000) * budget):
         cases.append(_random_case(ctx.rng))
+    cases += rnd_online
     return cases, n_corpus, n_exh
 
 
@@ -292,18 +301,20 @@ def correspond(ctx):
         d = _first_diff(c, m, o)
         if d is not None:
             i, f, mv, ov = d
-            dis.append(Disagreement('Gather.Model.step~bounded_gather2', {'case': c, 'observation_index': i, 'field': f}, mv, ov))
+            name = 'Gather.OnlineModel.ostep~OnlineBoundedGather2' if c['entry'] == 'online' else 'Gather.Model.step~bounded_gather2'
+            dis.append(Disagreement(name, {'case': c, 'observation_index': i, 'field': f}, mv, ov))
     dis.sort(key=lambda d: (len(d.case['case']['acts']), d.case['case']['n']))
     return Corr(evaluations=len(cases), distinct_nontrivial=nontrivial,
                 rule='schedule = (entry point, mode, permits N, number of partial functions n, action list); corpus, then every schedule of the small scope '
                      f'(3 modes x N<=3 x n<{ctx.scale(4, 5)} x every action list up to length {ctx.scale(3, 5)} in which a body finishes at most once and the caller is '
-                     'cancelled at most once), then seeded random schedules (n<=8, N<=4, up to 14 actions); non-trivial = more partial functions than permits '
+                     'cancelled at most once; OnlineBoundedGather2: N<=2, n<=3, with-body normal/raising, action lists incl. task cancellation up to length '
+                     f'{ctx.scale(3, 4)}), then seeded random schedules (n<=8, N<=4, up to 14 actions); non-trivial = more partial functions than permits '
                      'and at least one failure or caller cancellation; after the call and after EVERY action the body states, unfinished tasks, semaphore '
                      'value/waiters, caller outcome and the number of bodies running at the instant of return are compared',
                 samples=[{'case': c, 'final': o[-1]} for c, o in list(zip(cases, impl))[-3:]],
                 disagreements=dis, histograms={'mode/entry': hist, 'corpus': n_corpus, 'exhaustive_small_scope': n_exh,
                                                'random': len(cases) - n_corpus - n_exh},
-                exhaustive=False, names=['Gather.Model.step~bounded_gather2'])
+                exhaustive=False, names=['Gather.Model.step~bounded_gather2', 'Gather.OnlineModel.ostep~OnlineBoundedGather2'])
 
 
 # ------------------------------------------------------------------------------------------------ oracle (implementation only)
@@ -328,28 +339,27 @@ def _enumerate_online(n, maxlen):
 
 
 def _online_cases(ctx, budget):
-    cases = []
-    for p in sorted(glob.glob(os.path.join(os.path.dirname(__file__), '..', '..', 'corpus', ID, '*.json'))):
-        doc = json.load(open(p))
-        c = doc['case'] if 'case' in doc else doc
-        if c.get('entry') == 'online':
-            cases.append(c)
+    exh = []
     for N in (1, 2):
         for n in (1, 2, 3):
             for body in ('normal', 'raise'):
                 for acts in _enumerate_online(n, ctx.scale(3, 4)):
-                    cases.append({'entry': 'online', 'mode': 'raise', 'N': N, 'n': n, 'body': body, 'acts': acts})
+                    exh.append({'entry': 'online', 'mode': 'raise', 'N': N, 'n': n, 'body': body, 'acts': acts})
+    rnd = []
     rng = ctx.rng
     for _ in range(ctx.scale(150, 3000) * budget):
-        n = rng.randint(1, 6)
+        n = rng.randint(0, 6)
         acts = []
         for _ in range(rng.randint(0, 10)):
             r = rng.random()
-            acts.append(['K', rng.randrange(n)] if r < 0.5 else ['E', rng.randrange(n), rng.randint(0, 1)] if r < 0.7
-                        else ['T', rng.randrange(n)] if r < 0.9 else ['X'])
-        cases.append({'entry': 'online', 'mode': 'raise', 'N': rng.randint(1, 3), 'n': n,
-                      'body': rng.choice(['normal', 'normal', 'raise']), 'acts': acts})
-    return cases
+            if n == 0 or r >= 0.9:
+                acts.append(['X'])
+            else:
+                acts.append(['K', rng.randrange(n)] if r < 0.5 else ['E', rng.randrange(n), rng.randint(0, 1)] if r < 0.7
+                            else ['T', rng.randrange(n)])
+        rnd.append({'entry': 'online', 'mode': 'raise', 'N': rng.randint(1, 3), 'n': n,
+                    'body': rng.choice(['normal', 'normal', 'normal', 'raise']), 'acts': acts})
+    return exh, rnd
 
 
 def _check_case(case, obs):
@@ -390,6 +400,8 @@ def _check_case(case, obs):
     if c == 'P':
         return bad
     how = 'cancelled' if c == 'X' else 'error' if c[0] == 'E' else 'ok'
+    if entry == 'online' and how == 'error':
+        how = 'body-raised' if case.get('body') == 'raise' else 'task-error'
     ar = last['at_return']
     # --- error contract
     if c == 'X' and not cancelled_caller:
@@ -431,7 +443,6 @@ def _check_case(case, obs):
 
 def oracle(ctx, budget):
     cases, n_corpus, n_exh = _cases(ctx, budget)
-    cases += _online_cases(ctx, budget)
     impl = _run_impl(ctx, cases)
     seen = {}
     for c, o in zip(cases, impl):
@@ -454,7 +465,7 @@ def replay(ctx, doc):
         case = case['case']
     impl = _run_impl(ctx, [case])[0]
     out = {'case': case, 'impl': impl, 'oracle': [list(x) for x in _check_case(case, impl)]}
-    if case['entry'] != 'online':
+    if True:
         try:
             out['model_fixed_code'] = _run_model(ctx, [case], 'rp')[0]
             out['first_difference_from_model'] = _first_diff(case, out['model_fixed_code'], impl)
